@@ -1,4 +1,5 @@
 import TR.Socket
+import TR.Leptond
 import Driver.Proto
 import Driver.E2EStream
 /-! leptondloop stream: the camera daemon's real `runMain` / `runCamera` loop on a scripted camera.  What arrives on
@@ -28,6 +29,22 @@ def expected (script : List String) : List String :=
       (out ++ (List.range n).map (fun i => s!"f{k + i + 1}"), k + n)
     else (out, k)) ([], 0)
   r.1 ++ ["fend"]
+
+/-- the scripted camera's frame with counter `c` (as the fake lepton3 package fills it) -/
+def frameBytes (c : Nat) (n : Nat := 328) : List Nat :=
+  [c / 16777216 % 256, c / 65536 % 256, c / 256 % 256, c % 256] ++ (List.range (n - 4)).map fun j => (c * 7 + (j + 4)) % 251
+
+/-- the camera history of a script, as events of the daemon model `TR.Leptond` (ending with the end-of-script frame) -/
+def camEvents (script : List String) : List Leptond.CamEv :=
+  let r := script.foldl (fun (acc : List Leptond.CamEv × Nat) s =>
+    let (out, k) := acc
+    if s == "fail" then (out ++ [.timeout], k)
+    else if s == "reset" then (out ++ [.resetRequested (frameBytes (k + 1))], k + 1)
+    else if s.startsWith "f" then
+      let n := nat ((s.drop 1).toString)
+      (out ++ (List.range n).map (fun i => Leptond.CamEv.frame (frameBytes (k + i + 1))), k + n)
+    else (out, k)) ([], 0)
+  r.1 ++ [.frame (frameBytes 4294967295)]
 
 def frameName (bytes : List Nat) : String :=
   let c := bytes.getD 0 0 * 16777216 + bytes.getD 1 0 * 65536 + bytes.getD 2 0 * 256 + bytes.getD 3 0
@@ -61,7 +78,13 @@ def monStep (st : St) (bl : Block) : St × List String :=
       match seen hex with
       | none => (st', f0 ++ ["prop=C14 reason=no-camera-header-on-the-frame-socket"])
       | some (got, clean) =>
-        (st', f0 ++ (if got == exp then [] else
+        -- byte for byte against the daemon model: after the header, exactly `encode (sent events)`
+        let body := match Socket.readHeader (WriterStream.parseHexBytes hex).toList with
+          | some (_, rest) => rest
+          | none => []
+        let fm := if body == Socket.encode (Leptond.sent (camEvents st.script)) then []
+          else ["prop=C14 reason=bytes-on-the-frame-socket-differ-from-the-camera-daemon-model"]
+        (st', f0 ++ fm ++ (if got == exp then [] else
                   [s!"prop=C14 reason=recorder-would-read-{"-".intercalate (got.take 12)}-instead-of-{"-".intercalate (exp.take 12)}"]) ++
               (if clean then [] else ["prop=C14 reason=stream-ends-inside-a-frame-or-marker"]))
     | _ => (st', f0 ++ ["prop=C14 reason=nothing-written-to-the-frame-socket"])
